@@ -49,15 +49,18 @@ const (
 	KRAdd    = "radd"    // Watcher.Add(P + "/...") (recursive mode)
 	KRRemove = "rremove" // Watcher.Remove(P + "/...")
 
-	KAdd    = "add"    // Watcher.Add(P)
-	KRemove = "remove" // Watcher.Remove(P)
-	KList   = "list"   // Watcher.WatchList()
+	KAdd       = "add"     // Watcher.Add(P)
+	KRemove    = "remove"  // Watcher.Remove(P)
+	KList      = "list"    // Watcher.WatchList()
+	KRemoveNow = "remove!" // Watcher.Remove(P) inside a burst, without waiting for quiescence
 
 	KXNew    = "xnew"    // create another Watcher (capacity N) that lives beside the one under test
 	KXAdd    = "xadd"    // other Watcher N: Add(P)
 	KXRemove = "xremove" // other Watcher N: Remove(P)
 	KXClose  = "xclose"  // other Watcher N: Close()
 	KAbsorb  = "absorb"  // start an absorb segment: nobody receives until the next sync
+
+	KOverflow = "overflow" // park the reader and create N entries in directory P (more than the kernel queue holds)
 
 	KSync  = "sync"  // sentinel: wait until everything so far is delivered, compare
 	KPlug  = "plug"  // park the reader goroutine in a channel send
@@ -76,7 +79,7 @@ func (s Step) String() string {
 	switch s.K {
 	case KRename, KLink, KSymlink:
 		return fmt.Sprintf("%s(%q,%q)", s.K, string(s.P), string(s.Q))
-	case KWrite, KTrunc, KChmod, KHold:
+	case KWrite, KTrunc, KChmod, KHold, KOverflow:
 		return fmt.Sprintf("%s(%q,%d)", s.K, string(s.P), s.N)
 	case KRelease, KPoll, KXNew, KXClose:
 		return fmt.Sprintf("%s(%d)", s.K, s.N)
